@@ -195,7 +195,15 @@ func runCheck(args []string) int {
 			}
 			r.res.Script.obls = keep
 		}
-		if spec.Filter != "" && r.res.Script != nil {
+		thin := false
+		for _, f := range r.res.Flags {
+			if strings.HasPrefix(f, "only_") || f == "lockonly" {
+				thin = true
+			}
+		}
+		// the filter selects the clauses of THIN units that belong to this property; a full unit listed
+		// under a filtered property contributes all its obligations
+		if spec.Filter != "" && r.res.Script != nil && (thin || spec.Filter == "locks") {
 			var keep []*Obligation
 			for _, o := range r.res.Script.obls {
 				for _, f := range strings.Split(spec.Filter, ",") {
